@@ -1,7 +1,7 @@
 (* C06 - the V3 handshake: key agreement when genuine, sound rejection otherwise. Statements only (packet level;
    the session-level clauses are in the Session theorems below once built). *)
 From MS Require Import lib.Base gen.GenLan crypto.SHA256 crypto.Modes model.Lan model.Session spec.RefLan proofs.LanV3Proofs
-  proofs.SessionProofs proofs.SessionHoare.
+  proofs.SessionProofs proofs.SessionHoare proofs.SessionCreds.
 Local Open Scope N_scope.
 
 (* authentication succeeds EXACTLY when the 64-byte reply proves knowledge of the key: it is CBC(key, nonce) ||
@@ -43,6 +43,21 @@ Proof. exact bounded_lan_auth. Qed.
 Print Assumptions C06_failure_is_contained.
 Print Assumptions C06_failure_keeps_credentials.
 Print Assumptions C06_only_handshakes_written.
+
+(* rejection does not depend on the state of the session: with a token/key pair the appliance does not accept, LAN.authenticate
+   NEVER returns normally - not connected, connected, already authenticated with other credentials, expired, mid-failure, for every
+   environment script and every retry budget >= 1; Device.authenticate then raises exactly AuthenticationError; and with no
+   credentials at all (none given, none stored) it never returns normally either *)
+Theorem C06_wrong_credentials_never_authenticate : forall r w a w', lan_authenticate (Some false) (S r) w <> (Ok a, w').
+Proof. exact wrong_credentials_never_authenticate. Qed.
+Theorem C06_no_credentials_never_authenticate : forall r w, l_creds (w_lan w) = None ->
+  forall a w', lan_authenticate None (S r) w <> (Ok a, w').
+Proof. exact no_credentials_never_authenticate. Qed.
+Theorem C06_device_wrong_credentials : forall w, fst (dev_authenticate false w) = Err EAuth.
+Proof. exact dev_wrong_credentials_raise_auth. Qed.
+Print Assumptions C06_wrong_credentials_never_authenticate.
+Print Assumptions C06_no_credentials_never_authenticate.
+Print Assumptions C06_device_wrong_credentials.
 
 Example C06_nonvacuous :
   let key := map N.of_nat (seq 1 32) in let nonce := map N.of_nat (seq 50 32) in
